@@ -41,8 +41,24 @@ class ProxyCursor:
 
 class ProxyConn:
     def __init__(self, conn, steps):
-        self._conn = conn
-        self._s = steps
+        object.__setattr__(self, "_conn", conn)
+        object.__setattr__(self, "_s", steps)
+
+    def __setattr__(self, k, v):
+        # isolation_level, row_factory, ... belong to the real connection
+        setattr(self._conn, k, v)
+
+    def execute(self, sql, *a):
+        self._s.hit("execute", sql)
+        return self._conn.execute(sql, *a)
+
+    def executescript(self, sql):
+        self._s.hit("execute", sql)
+        return self._conn.executescript(sql)
+
+    def rollback(self):
+        self._s.hit("rollback")
+        return self._conn.rollback()
 
     def cursor(self):
         return ProxyCursor(self._conn.cursor(), self._s)
